@@ -18,6 +18,36 @@ def _char_lit_len(text, i):
     return len(m.group(0)) if m else 0
 
 
+def _blank_line_comments(text):
+    """replace `// …` comments (outside string / char literals) by spaces, keeping every newline"""
+    out = []
+    i = 0
+    n = len(text)
+    while i < n:
+        c = text[i]
+        if c == "'" and _char_lit_len(text, i):
+            k = _char_lit_len(text, i)
+            out.append(text[i:i + k])
+            i += k
+            continue
+        if c == '"':
+            j = i + 1
+            while j < n and text[j] != '"':
+                j += 2 if text[j] == "\\" else 1
+            out.append(text[i:j + 1])
+            i = j + 1
+            continue
+        if text.startswith("//", i):
+            j = text.find("\n", i)
+            j = n if j < 0 else j
+            out.append(" " * (j - i))
+            i = j
+            continue
+        out.append(c)
+        i += 1
+    return "".join(out)
+
+
 class GrammarError(Exception):
     pass
 
@@ -360,6 +390,8 @@ class Grammar:
         return out
 
     def _parse_alt(self, text, line):
+        # line comments (a trailing remark, a commented-out alternative) are blanked first: they may contain `=>` and `,`
+        text = _blank_line_comments(text)
         # leading blank lines belong to the previous alternative
         stripped = text.lstrip()
         line += text[:len(text) - len(stripped)].count("\n")
